@@ -798,6 +798,7 @@ static void reb_integrator_trace_step(struct reb_simulation* const r){
                 break;
         }
         r->gravity = REB_GRAVITY_TRACE;
+        r->ri_trace.mode = REB_TRACE_MODE_NONE; // No longer within the full step. Particles added or removed from now on are not part of it.
         r->t = old_t; // final time will be set later
         r->dt = old_dt;
 	reb_integrator_trace_inertial_to_dh(r);
